@@ -184,7 +184,62 @@ def evaluate_illegal(case):
                % (case["u"], case["w"], k, case["base"], got), labels)
 
 
+def evaluate_large_matrix(case):
+    """Orders 5 and 6 (1,024 / 4,096 vertices): accessor -> matrix -> accessor on a seeded arc subset, the matrix
+    compared with an independent construction, plus one illegal arc far from / near the successor window."""
+    import random
+    import numpy
+    dsw = import_dsw()
+    k, rng = case["k"], random.Random(case["seed"])
+    n = 4 ** k
+    palette = [15, 15, 7, 11, 13, 14, 5, 10, 3, 12, 1, 2, 4, 8, 0, 0]
+    rows = [rng.choice(palette) for _ in range(n)]
+    acc = gens.accessor_of({"k": k, "rows": rows})
+    snapshot = numpy.array(acc, copy=True)
+    labels = ["k=%d" % k]
+    matrix = lib_call(dsw.accessor_to_adjacency_matrix, _twice=False, accessor=acc)
+    if isinstance(matrix, Raised):
+        return bad("accessor_to_adjacency_matrix raised %r at order %d" % (matrix, k), labels)
+    want = numpy.zeros((n, n), dtype=numpy.int8)
+    succ = (numpy.arange(n).reshape(-1, 1) * 4 + numpy.arange(4)) % n
+    live = ((numpy.array(rows).reshape(-1, 1) >> numpy.arange(4)) & 1).astype(bool)
+    want[numpy.repeat(numpy.arange(n), 4)[live.reshape(-1)], succ.reshape(-1)[live.reshape(-1)]] = 1
+    if tuple(matrix.shape) != (n, n) or not numpy.array_equal(matrix, want):
+        return bad("adjacency matrix at order %d does not have a 1 exactly at the arcs (seed %d)" % (k, case["seed"]),
+                   labels)
+    back = lib_call(dsw.adjacency_matrix_to_accessor, _twice=False, matrix=matrix)
+    if isinstance(back, Raised) or not numpy.array_equal(back, snapshot):
+        where = "" if isinstance(back, Raised) else " (first differing row %d)" % int(
+            numpy.nonzero((numpy.asarray(back) != snapshot).any(axis=1))[0][0])
+        return bad("accessor -> matrix -> accessor is not the identity at order %d (seed %d): %r%s"
+                   % (k, case["seed"], back if isinstance(back, Raised) else "accessor differs", where), labels)
+    small = lib_call(dsw.adjacency_matrix_to_accessor, _twice=False, matrix=want)  # the same matrix held as int8
+    if isinstance(small, Raised) or not numpy.array_equal(small, snapshot):
+        return bad("int8 adjacency matrix at order %d is not converted to the accessor of the same graph" % k, labels)
+    for _ in range(6):
+        u = rng.randrange(n)
+        w = rng.choice([(4 * u + rng.choice([-3, -1, 4, 6])) % n, (4 * u + n // 2 + rng.randrange(4)) % n,
+                        (4 * u + 512 * 4 + rng.randrange(4)) % n, rng.randrange(n)])
+        if w in [(4 * u + j) % n for j in range(4)]:
+            continue
+        want[u, w] = 1
+        got = lib_call(dsw.adjacency_matrix_to_accessor, _twice=False, matrix=want)
+        want[u, w] = 0
+        if not (isinstance(got, Raised) and got.type is ValueError):
+            return bad("order-%d matrix with the non-shift arc %d -> %d was not rejected with ValueError: %r"
+                       % (k, u, w, got if isinstance(got, Raised) else "an accessor was returned"), labels)
+        labels.append("illegal_arc_rejected")
+    return Outcome(True, True, sorted(set(labels)))
+
+
 SUBCHECKS = [
+    SubCheck("large_matrices", evaluate_large_matrix,
+             enum=(lambda tier: 4 if tier == "quick" else 16,
+                   lambda i, tier: {"k": [5, 6][i % 2], "seed": 1000 + i + 97 * int(
+                       __import__("os").environ.get("VERIF_SEED", "1") or 1)}),
+             shards=(4, 8), timeout=600.0,
+             exhaustive_space="seeded arc subsets of order 5 and 6 (4,096 x 4,096 matrices): both conversions, the "
+                              "matrix entry by entry, and six single non-shift arcs each", rule=RULE),
     SubCheck("representations", evaluate_graph, strategy=graph_cases, examples=(2500, 25000), shards=(16, 16),
              floors={"matrix": 500, "leaf_duplicates": 50, "k=3": 200, "matrix_dtype:uint8": 100, "verbose": 200}, rule=RULE),
     SubCheck("illegal_order2_all", evaluate_illegal, enum=(enum_illegal_size, enum_illegal_case), shards=(4, 4),
